@@ -181,6 +181,11 @@ func init() {
 			lwg.Wait()
 		}
 		fmt.Printf("C20: Lmtp.tla %d states (no deadlock); %d LMTP backend programs run on the real server, %d hangs\n", lmc.Distinct, len(lcases), nhang)
+		// ---- the gated stale-verdict schedules (Verdict.tla: NoGoroutineBlocked): no
+		// delivery goroutine is left blocked or behind, whenever the backend of an
+		// aborted transfer returns
+		vst, vsc := verdictFamily(run)
+		fmt.Printf("C20: Verdict.tla %d states; %d gated schedules of aborted chunked transfers, goroutine census after each\n", vst, vsc)
 		// ---- no deadlock after a backend panic: whatever callback panics, the
 		// connection ends and Server.Close still returns (a lock left held by the
 		// panicking path would wedge it)
